@@ -437,6 +437,94 @@ func ruleStartup(c *Ctx, rule string) {
 	}
 }
 
+// ruleManifestsComplete: the scan behind every "is this blob still used" decision visits
+// every manifest; an unreadable one is skipped alone (C04-R8 / C12-R8).
+func ruleManifestsComplete(c *Ctx, rule string) {
+	f := c.Fn(rule, "server", "Manifests")
+	if f == nil {
+		return
+	}
+	info := f.Info()
+	g := c.G(f)
+	// enumeration: range over the result of filepath.Glob(<root>, "*", "*", "*", "*")
+	var loop *ast.RangeStmt
+	for _, gl := range g.FindCalls("path/filepath.Glob") {
+		stars := 0
+		ast.Inspect(gl.Node, func(n ast.Node) bool {
+			if bl, ok := n.(*ast.BasicLit); ok && bl.Value == "\"*\"" {
+				stars++
+			}
+			return true
+		})
+		mv := core.ResultVar(info, gl.Top, gl.Node.(*ast.CallExpr), 0)
+		for _, rl := range rangeLoops(f) {
+			if mv != nil && rl.Over == mv && stars == 4 {
+				loop = rl.Stmt
+			}
+		}
+	}
+	if loop != nil {
+		c.OK(rule, f.Key()+" enumerates host/namespace/model/tag entries by glob", c.Pos(loop), "range over filepath.Glob(manifests/*/*/*/*)")
+	} else {
+		// another enumeration (e.g. a directory walk) is acceptable as long as it never skips siblings;
+		// the per-entry rules below apply to the glob form only
+		walks := g.FindCalls("path/filepath.WalkDir", "path/filepath.Walk", "io/fs.WalkDir")
+		c.Check(rule, f.Key()+" enumerates the manifest tree", c.Pos(f.Decl), len(walks) == 1, "Manifests neither ranges over filepath.Glob(manifests/*/*/*/*) nor walks the manifest tree")
+	}
+	bad := ""
+	ast.Inspect(f.Body, func(n ast.Node) bool {
+		if se, ok := n.(*ast.SelectorExpr); ok && (se.Sel.Name == "SkipDir" || se.Sel.Name == "SkipAll") {
+			bad = c.Pos(se)
+		}
+		return true
+	})
+	c.Check(rule, f.Key()+" never skips a directory", c.Pos(f.Decl), bad == "", "SkipDir/SkipAll at "+bad+" drops the remaining entries of the directory from the scan: their layers look unused and are deleted")
+	if loop == nil {
+		return
+	}
+	for _, br := range g.Find(func(n ast.Node) bool { b, ok := n.(*ast.BranchStmt); return ok && within(loop, b) }) {
+		b := br.Node.(*ast.BranchStmt)
+		c.Check(rule, f.Key()+" a bad entry is skipped alone", c.Pos(b), b.Tok == token.CONTINUE && core.BranchTarget(f.Body, b) == ast.Stmt(loop), "only `continue` to the next entry is allowed inside the scan")
+	}
+	for _, ex := range g.Returns() {
+		if ex.Return == nil || !within(loop, ex.Return) {
+			continue
+		}
+		ok := false
+		for _, a := range g.AtomsAt(ex.Loc) {
+			if id, isID := ast.Unparen(a.Expr).(*ast.Ident); isID && id.Name == "continueOnError" && !a.Val {
+				ok = true
+			}
+		}
+		// os.Stat failure of a glob match returns unconditionally today (audited: the entry vanished)
+		if !ok {
+			for _, a := range g.AtomsAt(ex.Loc) {
+				if _, eq, isNil := core.IsNilCheck(info, a.Expr); isNil && eq != a.Val {
+					for _, st := range g.FindCalls("os.Stat") {
+						if reach, checked := g.FailureReaches(st, ex.Loc); checked && reach {
+							if s, _ := g.OnSuccessOf(st, ex.Loc); !s {
+								ok = true
+							}
+						}
+					}
+				}
+			}
+		}
+		c.Check(rule, f.Key()+" the scan aborts only when continueOnError is false", c.Pos(ex.Return), ok, "a return inside the scan must be on the !continueOnError edge")
+	}
+	// every parsed manifest is stored in the result map
+	okStore := false
+	ast.Inspect(loop.Body, func(n ast.Node) bool {
+		if as, ok := n.(*ast.AssignStmt); ok && len(as.Lhs) == 1 {
+			if _, isIx := ast.Unparen(as.Lhs[0]).(*ast.IndexExpr); isIx {
+				okStore = true
+			}
+		}
+		return true
+	})
+	c.Check(rule, f.Key()+" every readable manifest is returned", c.Pos(loop), okStore, "")
+}
+
 func runC04(c *Ctx) {
 	info := c.P.Pkgs["server"].TypesInfo
 	c.Rule("C04-R1", "who may remove files of the model store is a closed, classified list; a final blob is removed only after a successful scan of all manifests (Layers and Config) in which a reference keeps it; PruneLayers removes entries itself only on the invalid-digest edge; PruneDirectory removes only empty directories; temp clean-ups remove only what the function created")
@@ -552,6 +640,8 @@ func runC04(c *Ctx) {
 
 	c.Rule("C04-R6", "startup pruning runs only behind fixBlobs ok, Manifests(false) ok and !NoPrune(), PruneDirectory after PruneLayers, before serving")
 	ruleStartup(c, "C04-R6")
+	c.Rule("C04-R8", "the in-use scan is complete: Manifests enumerates every manifest entry (glob over host/namespace/model/tag), never skips a directory, skips an unreadable manifest alone and aborts only when continueOnError is false")
+	ruleManifestsComplete(c, "C04-R8")
 	c.Rule("C04-R7", "closed call-level inventory of file-system effects in package server (a new create/rename/write/truncate must be classified before the ordering rules mean anything)")
 	effectInventory(c, "C04-R7", c.P.FuncsOf("server"), auditedServerEffects)
 }
@@ -568,6 +658,8 @@ func runC12(c *Ctx) {
 			}
 		}
 	}
+	c.Rule("C12-R8", "the in-use scan that decides which blobs a repeated or concurrent operation may delete is complete: Manifests enumerates every manifest entry, never skips a directory, and a manifest left truncated by a crash is skipped alone")
+	ruleManifestsComplete(c, "C12-R8")
 	c.Rule("C12-R2", "blobs strictly before the manifest: pull (no failed verify/download reaches the manifest write, both loops precede it), create (manifest after every layer-creating call, last), copy (manifest copy only, no blob effect)")
 	c.Rule("C12-R3", "manifest removal strictly before blob removal (delete), pruning of a replaced manifest's layers only after the new manifest exists (create, pull)")
 	ruleCreateOrdering(c, "C12-R2")
